@@ -271,7 +271,13 @@ class RD:
         elif isinstance(st, ast.Expr):
             self._uses(st.value, env)
         elif isinstance(st, ast.Return):
-            self.returns.append((st, self._uses(st.value, env)))
+            uses = self._uses(st.value, env)
+            for i, (node, old) in enumerate(self.returns):
+                if node is st:
+                    self.returns[i] = (st, old | uses)
+                    break
+            else:
+                self.returns.append((st, uses))
         elif isinstance(st, ast.If):
             self._uses(st.test, env)
             e1 = self._block(st.body, _copy(env))
